@@ -1,4 +1,5 @@
 import BinlogVerif.Props.C03
+import BinlogVerif.Lemmas.SessionDeliver
 /-
   C13 — Log rotation: each output is self-contained after reconsumeMetadata.
 
@@ -28,6 +29,36 @@ theorem c13_rotation_writes_metadata (s : Session) (h : s.outputs ≠ []) :
   rw [emitAll_cur _ _ (by simp)]
   simp [curEntries]
 
+/-- **C13 — the event entries of all outputs, concatenated in output order and write order, are
+    exactly the delivered events**, in delivery order, each once: a rotation neither drops nor
+    repeats an event (the metadata `reconsumeMetadata` repeats contains no events), and every
+    event goes to exactly one output.  Holds for every trace (`TraceOk`) and every consume oracle. -/
+theorem c13_partition (cs : ClockSync) (ops : List Op) (s : Session)
+    (hok : TraceOk (init cs) ops) (hrun : exec (init cs) ops = some s) :
+    (s.outputs.flatten.flatten).filter Entry.isEvent = s.delivered.map (·.2) :=
+  outInv_exec cs ops s hok hrun
+
+/-- the same under the C02 trace condition -/
+theorem c13_partition_sync (cs : ClockSync) (ops : List Op) (s : Session)
+    (hok : SyncTrace (init cs) ops) (hrun : exec (init cs) ops = some s) :
+    (s.outputs.flatten.flatten).filter Entry.isEvent = s.delivered.map (·.2) :=
+  c13_partition cs ops s hok.traceOk hrun
+
+/-- **With C02: every event accepted from writer `w` is, exactly once and in order, either among
+    the events of the outputs (attributed to `w` by the delivery log) or still queued**; nothing
+    is lost.  `s.delivered` is both the per-writer decomposition of C02 and, projected to the
+    events, the content of the outputs. -/
+theorem c13_no_loss_no_dup (cs : ClockSync) (ops : List Op) (s : Session)
+    (hok : SyncTrace (init cs) ops) (hrun : exec (init cs) ops = some s) :
+    (s.outputs.flatten.flatten).filter Entry.isEvent = s.delivered.map (·.2) ∧
+    (∀ w, ofW w (logCalls ops) = ofW w s.delivered ++ pendingOf w s.channels) ∧ s.lost = [] := by
+  have h := delivInv_exec cs ops s hok hrun
+  have ha := exec_accepted (init cs) ops s hrun
+  refine ⟨c13_partition_sync cs ops s hok hrun, ?_, h.nolost⟩
+  intro w
+  rw [← h.order w, ha]
+  simp [init]
+
 /-! Non-vacuity: rotate twice in a row before any consume, with events and sources pending. -/
 def exOps : List Op := [.createWriter 1 0 [], .addSource {}, .log 1 1 10 [] true, .rotate, .rotate,
   .consume [⟨false, 5, 0⟩], .addSource {}, .log 1 2 11 [] true, .rotate, .consume [⟨false, 5, 0⟩]]
@@ -36,5 +67,18 @@ example : TraceOk (init {}) exOps := by
   simp [exOps, TraceOk, OpOk, step, init, lookupWriter, newChan, setWriter, updChan, consume, reconsumeMetadata, emitAll]
 
 example : ((exec (init {}) exOps).map (·.outputs.length)) = some 4 := by decide
+
+/-! Non-vacuity: events before and after a rotation; the outputs are a partition of them. -/
+def exOpsPartition : List Op :=
+  [.createWriter 1 0 [], .addSource {}, .log 1 1 10 [] true, .log 1 1 11 [] true,
+   .consume [⟨false, 1, 0⟩], .rotate, .log 1 1 12 [] false, .consume [⟨true, 9, 1⟩, ⟨false, 9, 0⟩]]
+
+example : TraceOk (init {}) exOpsPartition := by
+  simp [exOpsPartition, TraceOk, OpOk, step, init, lookupWriter, newChan, setWriter, updChan, consume, reconsumeMetadata,
+    emitAll, pollAll, pollChan, pollN]
+
+example : (exec (init {}) exOpsPartition).map (fun s => s.outputs.map (fun o => o.flatten.filter Entry.isEvent)) =
+    some [[.event 1 10 []], [.event 1 11 [], .event 1 12 []]] := by decide
+
 
 end BinlogVerif.C13
